@@ -58,6 +58,23 @@ Proof.
 Qed.
 
 (* pkg/render renderers never override a Content-Type that is already set, and set the documented one otherwise *)
+(* pkg/render Blob and its aliases, used on their own (status 200 is the writer's default): the preset Content-Type wins,
+   the body is exactly the data *)
+Theorem render_blob_response preset sc ct data :
+  let r := render_blob ct data (rsp_init preset sc) in
+  ctype r = Some (match preset with Some c => c | None => ct end) /\
+  log (ensure (rw r)) = WH 200 :: (match data with [] => [] | _ => [W (fst (accept sc data))] end).
+Proof.
+  intros r. subst r. split.
+  - unfold render_blob. destruct data; destruct preset; reflexivity.
+  - unfold render_blob. destruct data as [|c data].
+    + destruct preset; reflexivity.
+    + assert (E : rw (with_rw (write (c :: data)) (write_ct ct (rsp_init preset sc))) = wrun [WWrite (c :: data)] (winit sc)).
+      { destruct preset; reflexivity. }
+      rewrite E. destruct (wrequest_log sc [WWrite (c :: data)]) as [H _]. unfold wrequest in H. rewrite H.
+      cbn [spec_status spec_events]. destruct (accept sc (c :: data)); reflexivity.
+Qed.
+
 Theorem write_ct_keeps v r old : ctype r = Some old -> ctype (write_ct v r) = Some old.
 Proof. intros H. unfold write_ct. rewrite H. exact H. Qed.
 
